@@ -64,3 +64,22 @@ Definition registered (regs : list reg) : list route := fold_left sreg regs [].
 (* the routes of method m matching the request q *)
 Definition matches (acc : list route) (m : string) (q : list seg) : list route :=
   filter (fun r => String.eqb m (r_method r) && pmatch (r_pat r) q) acc.
+
+(* registration of a whole route list at start-up (engine.bindRoutes): routes are registered in
+   order, the first rejected one aborts with its error *)
+Fixpoint sbind (acc : list route) (rs : list reg) : list route * option err :=
+  match rs with
+  | [] => (acc, None)
+  | r :: rest =>
+      match reject acc (fst (fst r)) (snd (fst r)) with
+      | Some e => (acc, Some e)
+      | None => sbind (sreg acc r) rest
+      end
+  end.
+
+(* route groups as given to Server.AddRoutes: optional WithPrefix group, routes *)
+Definition group := (option (list N) * list reg)%type.
+Definition with_prefix (g : list N) (rs : list reg) : list reg :=
+  map (fun r => (fst (fst r), join2 g (snd (fst r)), snd r)) rs.
+Definition engine_routes (gs : list group) : list reg :=
+  flat_map (fun g => match fst g with Some pre => with_prefix pre (snd g) | None => snd g end) gs.
